@@ -3,7 +3,7 @@ import zlib
 
 from hypothesis import strategies as st
 
-from harness import build, gen, simnet, wire, httpref, deflateref, utf8ref
+from harness import boot, build, gen, simnet, wire, httpref, deflateref, utf8ref
 from harness.runner import Prop, Enumeration, held, failed
 from props.c01 import effective_seg, compare_events
 from props.c08 import client_frames
@@ -219,7 +219,7 @@ class C06(Prop):
                 if "damaged" in labels:
                     want = got       # history differs from the compressor's after a damaged message
                 elif got != raw:
-                    return failed("harness", "reference peer cannot inflate its own output", labels, False)
+                    raise boot.HarnessError("reference peer cannot inflate its own output")
             if cfg["snct"] or (comp and ref_inflater.eof):
                 ref_inflater = zlib.decompressobj(-cfg["sb"])
             s_index += 1
